@@ -103,6 +103,10 @@ type ListItem struct {
 	// Index is the item's position within its parent list (0-based)
 	Index int
 
+	// ParaIndex is the index of the paragraph this item was detected from,
+	// in the paragraph slice given to the detector
+	ParaIndex int
+
 	// Level is the nesting level (0 = top level, 1 = first nested, etc.)
 	Level int
 
@@ -562,6 +566,7 @@ func (d *ListDetector) createListItem(candidate listCandidate, index int) ListIt
 		BBox:        candidate.paragraph.BBox,
 		Lines:       candidate.paragraph.Lines,
 		Index:       index,
+		ParaIndex:   candidate.paragraphIndex,
 		Level:       0, // Will be set during nesting detection
 		ListType:    candidate.listType,
 		BulletStyle: candidate.bulletStyle,
